@@ -111,6 +111,7 @@ DOCS = {
     "wlderived": (WildList, WildList(items=[DerivedElement(qname="{urn:c}d", value=Alpha(v=3), type="alpha"), AnyElement(qname="{urn:c}a", text="1")])),
     "family": (Family, Family(members=[Base(x=1), Derived(x=2, y="q"), Sibling(x=3, z=True)])),
     "shapes": (ShapeHolder, ShapeHolder(s=CircleV1(r=1, v1=2))),
+    "formats": (Formats, Formats(h=b"\x01\xff", b=b"abc", hs=[b"\x00", b"\x0a\x0b"])),
 }
 
 # further documents for the drivers that go through the REAL text path only (harness/textpath.py); not used by the seam drivers
